@@ -101,9 +101,22 @@ def run(ctx):  # noqa: C901, PLR0912, PLR0915
         ext = [(n, c) for n, c in g.nodes_calling('extend') if 'response.' in unparse(c.func)]
 
         def _dedups(v):
-            return any(isinstance(x, (ast.DictComp, ast.SetComp, ast.Dict)) or
-                       (isinstance(x, ast.Call) and call_name(x) in ('set', 'fromkeys', 'OrderedDict'))
-                       for x in ast.walk(v))
+            """v de-duplicates objects: a set / dict.fromkeys of the objects, or a dict keyed by object identity (id(x)) or by
+            the object's own Handle.  A dict keyed by DescriptorHandle is NOT one: all context states of a descriptor share it."""
+            for x in ast.walk(v):
+                if isinstance(x, ast.DictComp):
+                    k = x.key
+                    if isinstance(k, ast.Call) and call_name(k) == 'id':
+                        return True
+                    if isinstance(k, ast.Attribute) and k.attr == 'Handle':
+                        return True
+                    bad_keys.append(unparse(k))
+                    continue
+                if isinstance(x, (ast.SetComp, ast.Dict)) or \
+                        (isinstance(x, ast.Call) and call_name(x) in ('set', 'fromkeys', 'OrderedDict')):
+                    return True
+            return False
+        bad_keys = []
 
         def _dirty_at(name, at, depth=3):
             """Can a value built from a per-handle LIST accumulator reach `name` at node `at` without a de-duplication?
@@ -138,7 +151,9 @@ def run(ctx):  # noqa: C901, PLR0912, PLR0915
                    f'{fi.name}: the list of selected states is de-duplicated before it is put into the response' if ok else
                    f'{fi.name}: states are collected per requested handle in a plain list and reach the response unfiltered: a '
                    f'handle requested twice, or a descriptor handle together with one of its context state handles, returns '
-                   f'a state more than once', fi=fi, witness=dirty[:4])
+                   f'a state more than once' +
+                   (f' (a dict keyed by {bad_keys} does not de-duplicate: distinct context states of one descriptor share that '
+                    f'key and all but one are dropped)' if bad_keys else ''), fi=fi, witness={'paths': dirty[:4], 'keys': bad_keys})
         # ---- R2 / R3: lookups inside the loops.  A lookup is a get_one / get whose receiver resolves (through aliases and
         # locals chosen by an if/else: cfg.value_cases) to <mdib>.<table>.<index>
         def _lookup_name(c):
